@@ -1,7 +1,7 @@
 (* Properties/C11.v -- Encoding is total and failures are classified correctly (the parts that are theorems). *)
 From Coq Require Import Arith NArith List Bool Lia.
 From DM Require Import Generated.Symbols Generated.ModeTables Model.Outcome Model.SymbolList Model.Planner Model.Enc
-  Model.RSEnc Model.Api Model.PlannerRun Proofs.RSEncLen Proofs.EncLocal Proofs.EncTop Proofs.EncAscii Proofs.PlanTotal.
+  Model.RSEnc Model.Api Model.PlannerRun Proofs.RSEncLen Proofs.EncLocal Proofs.EncTop Proofs.EncAscii Proofs.PlanTotal Proofs.AsciiTotal.
 Import ListNotations.
 Local Open Scope N_scope.
 
@@ -107,6 +107,15 @@ Proof.
   rewrite E in L. discriminate.
 Qed.
 Print Assumptions C11_panic_is_main_loop.
+
+(* (viii) the whole property for the ASCII-only configuration: every byte string, every symbol list, every total sub-list
+   sort -- a value or one of the two errors, never a panic (planner totality + the only possible plan + the main loop under
+   that plan); the classification of the error is (i) *)
+Theorem C11_ascii_only_total : forall sorter data symbols,
+  (forall sl k l, exists l', sorter sl k l = Ok l' /\ incl l' l) ->
+  no_panic (encode_data_internal (optimize_fn sorter) data symbols None 1 false false).
+Proof. exact ascii_only_total. Qed.
+Print Assumptions C11_ascii_only_total.
 
 (* NOT a theorem here: that the main loop's assertions never fire, i.e. that the encoder reaches every switch
    position the planner chose (planner/encoder agreement).  It is decided per case by running model and
